@@ -124,9 +124,9 @@ Divide(s, offs, design) ==
 RECURSIVE TrailWs(_, _)
 TrailWs(s, k) == IF k = 0 \/ ~IsWs(s[k].c) THEN 0 ELSE 1 + TrailWs(s, k - 1)
 Rstrip(s) == SubSeq(s, 1, Len(s) - TrailWs(s, Len(s)))
-RstripEnd(s, size) ==
-    IF Len(s) > size
-    THEN SubSeq(s, 1, Len(s) - Min2(TrailWs(s, Len(s)), Len(s) - size))
+RstripEnd(s, size) ==      \* (the text is measured in cells since the fix "rstrip_end measures the text in cells")
+    IF CellLen(s) > size
+    THEN SubSeq(s, 1, Len(s) - Min2(TrailWs(s, Len(s)), CellLen(s) - size))
     ELSE s
 
 \* ---- cells.set_cell_size / Text.truncate --------------------------------------------------------
